@@ -109,6 +109,10 @@ func buildCols(r *Rng, ncols, rows int, o genOpts, pick func() *TNode) ([]blockC
 		if ferr != nil {
 			return nil, ferr
 		}
+		if strings.HasPrefix(t.CH, "Decimal(") {
+			// the type goes on the wire as spelled (Decimal(P, S)), the storage was chosen by the harness
+			col = proto.Alias(col, proto.ColumnType(t.CH))
+		}
 		cols = append(cols, blockCol{name: fmt.Sprintf("c%d", i), t: t, cn: cn, col: col})
 	}
 	return cols, nil
